@@ -70,6 +70,7 @@ func main() {
 	runE2ECases(f, res)
 	runWrappers(f, res)
 	runRegistry(f, res, drv)
+	runReentrant(f, res, drv)
 	runConc(f, res, drv)
 	runLin(f, res, drv)
 	runStress(f, res)
